@@ -575,3 +575,72 @@ pub fn eq_clear_b(n: usize, xs: &[f64]) -> Vec<f64> {
     }
     out
 }
+
+// ---- round 8: private enums, break values, labelled blocks, extension traits
+#[derive(Clone, Copy, PartialEq)]
+enum Verdict {
+    Take,
+    Keep,
+}
+impl Verdict {
+    fn of(ratio: f64, lnu: f64) -> Self {
+        if ratio > lnu {
+            Verdict::Take
+        } else {
+            Verdict::Keep
+        }
+    }
+}
+pub fn eq_enum_a(ratio: f64, lnu: f64, cur: f64, prop: f64) -> f64 {
+    if ratio > lnu {
+        prop
+    } else {
+        cur
+    }
+}
+pub fn eq_enum_b(ratio: f64, lnu: f64, cur: f64, prop: f64) -> f64 {
+    match Verdict::of(ratio, lnu) {
+        Verdict::Take => prop,
+        Verdict::Keep => cur,
+    }
+}
+// the arms exchanged
+pub fn ne_enum_a(ratio: f64, lnu: f64, cur: f64, prop: f64) -> f64 {
+    eq_enum_b(ratio, lnu, cur, prop)
+}
+pub fn ne_enum_b(ratio: f64, lnu: f64, cur: f64, prop: f64) -> f64 {
+    match Verdict::of(ratio, lnu) {
+        Verdict::Take => cur,
+        Verdict::Keep => prop,
+    }
+}
+
+pub fn eq_breakval_a(n: usize, xs: &mut [f64]) -> f64 {
+    for i in 0..n {
+        xs[i] = xs[i] + 1.0;
+    }
+    xs[0]
+}
+pub fn eq_breakval_b(n: usize, xs: &mut [f64]) -> f64 {
+    let mut i = 0;
+    loop {
+        if i >= n {
+            break xs[0];
+        }
+        xs[i] = xs[i] + 1.0;
+        i += 1;
+    }
+}
+
+trait Squared: Sized + Copy + std::ops::Mul<Output = Self> {
+    fn squared(self) -> Self {
+        self * self
+    }
+}
+impl Squared for f64 {}
+pub fn eq_exttrait_a(x: f64, s: f64) -> f64 {
+    -(x * x) / (2.0 * (s * s))
+}
+pub fn eq_exttrait_b(x: f64, s: f64) -> f64 {
+    -(x.squared()) / (2.0 * s.squared())
+}
